@@ -19,7 +19,7 @@ from harness import core, scen, tree as T, world as W
 from harness.props import c09
 
 STEPPER = os.path.join(os.path.dirname(os.path.abspath(__file__)), "stepper.py")
-NAMES = ["a.txt", "src/b.c", "ünï.txt", "docs/r e.md", "empty", "lib/deep/x.py", "docs/cafe\u0301.txt"]
+NAMES = ["a.txt", "src/b.c", "ünï.txt", "docs/r e.md", "empty", "lib/deep/x.py", "docs/cafe\u0301.txt", "src2/c.c", "lib.tar"]
 
 
 def snapshot(d):
@@ -43,9 +43,11 @@ LSTRIP_SETS = [["src/"], ["lib/"], ["lib/deep/"], ["src/", "docs/"], ["lib/", "d
                ["nothing/", "src/"]]
 
 
-def gen_opts(rng):
+def gen_opts(rng, allow_paths=False):
     """Recording options of one history (the same for all its steps, so that the chain rules line up)."""
-    opts = {"exclude": None, "lstrip": None, "base": False}
+    opts = {"exclude": None, "lstrip": None, "base": False, "paths": None}
+    if allow_paths and rng.random() < 0.3:
+        opts["paths"] = "top-level"      # the material / product lists name the top-level entries one by one (filled in later)
     if rng.random() < 0.3:
         opts["exclude"] = rng.choice(EXCLUDE_SETS)
     if rng.random() < 0.4:
@@ -63,6 +65,10 @@ def rec_name(p, lstrip):
     return p
 
 
+def under(p, paths):
+    return paths is None or any(p == x or p.startswith(x + "/") for x in paths)
+
+
 def covered(snap, opts=None):
     """What a recording of '.' covers: default exclude patterns unless the history's options give others; names with
     the first matching prefix stripped.  None if two files would get the same name."""
@@ -74,6 +80,8 @@ def covered(snap, opts=None):
     out = {}
     for p, c in snap.items():
         if spec.match_file(p) or any(spec.match_file(x) for x in parents(p)):
+            continue
+        if not under(p, opts.get("paths")):
             continue
         name = rec_name(p, opts.get("lstrip"))
         if name in out:
@@ -179,7 +187,17 @@ class Honest:
         self.owner = rng.choice(pool)
         init, present = gen_ops(rng, [], rng.randrange(1, 4))
         subprocess.run([sys.executable, "-B", STEPPER] + init, cwd=self.work, check=True, capture_output=True)
-        opts = self.opts = opts or {"exclude": None, "lstrip": None, "base": False}
+        opts = self.opts = opts or {"exclude": None, "lstrip": None, "base": False, "paths": None}
+        opts.setdefault("paths", None)
+        if opts["paths"] == "top-level":
+            # make sure two entries share a name prefix: a directory and a sibling whose name extends it
+            pair = rng.choice([["create:src/b.c0:b\n", "create:src2/c.c0:c\n"], ["create:lib/deep/x.py0:x\n", "create:lib.tar0:t\n"]])
+            subprocess.run([sys.executable, "-B", STEPPER] + pair, cwd=self.work, check=True, capture_output=True)
+            present = set(present) | {o.split(":")[1] for o in pair}
+            # directories first, then files: "src" before "src2", "lib" before "lib.tar"
+            tops = sorted({p.split("/")[0] for p in present}, key=lambda n_: (not os.path.isdir(os.path.join(self.work, n_)), n_))
+            opts["paths"] = tops if len(tops) >= 2 else None
+        plist = list(opts["paths"]) if opts["paths"] else ["."]
         if present and rng.random() < 0.3 and not opts["exclude"]:
             # (not with custom exclude patterns: a directory link would make an excluded file reachable under a
             # second, not excluded, name, and the history would no longer be an honest one)
@@ -217,13 +235,13 @@ class Honest:
                 before = snapshot(self.work)
                 with contextlib.redirect_stdout(io.StringIO()), contextlib.redirect_stderr(io.StringIO()):
                     if mode != "record":
-                        md = rl.in_toto_run(name, ["."], ["."], cmd, record_streams=streams, use_dsse=dsse, **sign_kw,
+                        md = rl.in_toto_run(name, plist, plist, cmd, record_streams=streams, use_dsse=dsse, **sign_kw,
                                             metadata_directory=self.links, compact_json=rng.random() < 0.3,
                                             record_environment=rng.random() < 0.3, **kw)
                     else:
-                        rl.in_toto_record_start(name, ["."], use_dsse=dsse, **sign_kw, **kw)
+                        rl.in_toto_record_start(name, plist, use_dsse=dsse, **sign_kw, **kw)
                         subprocess.run(cmd, check=True, capture_output=True)
-                        rl.in_toto_record_stop(name, ["."], metadata_directory=self.links, **sign_kw, **kw)
+                        rl.in_toto_record_stop(name, plist, metadata_directory=self.links, **sign_kw, **kw)
                         md = None
                 after = snapshot(self.work)
                 self.steps.append({"name": name, "key": k, "extra": extra, "dsse": dsse, "mode": mode, "streams": streams, "cmd": cmd,
@@ -299,6 +317,8 @@ class Honest:
         insp_rules.append(["MATCH", "*", "WITH", "PRODUCTS", "FROM", last["name"]])
         if opts["exclude"]:
             insp_rules.append(["ALLOW", opts["exclude"][1]])
+        if opts["paths"]:
+            insp_rules.append(["ALLOW", "*"])        # the inspection sees the whole tree, the steps recorded the listed paths only
         insp_rules.append(["DISALLOW", "*"])
         self.insp_cmd = [sys.executable, "-B", STEPPER, "echo:inspect"]
         insp = [W.inspection_payload("final-check", self.insp_cmd, insp_rules, [["ALLOW", "*"]])]
@@ -338,7 +358,7 @@ class Honest:
             with contextlib.redirect_stdout(io.StringIO()), contextlib.redirect_stderr(io.StringIO()):
                 try:
                     md = Metadata.load(lp)
-                    s = vl.in_toto_verify(md, scn.keys, link_dir_path=self.links, persist_inspection_links=False)
+                    s = vl.in_toto_verify(md, scn.keys, link_dir_path=self.links, persist_inspection_links=False, inspect_timeout=60)
                     return {"load": "ok", "result": {"ok": W.canon(attr.asdict(s))}, "log": []}
                 except Exception as e:  # pylint: disable=broad-except
                     return {"load": "ok", "result": {"err": W.exc_class(e)}, "log": []}
